@@ -242,10 +242,17 @@ def _protocol_worker(
     except ZeroDivisionError:
         res = Result(Exception())
 
-    time_points = np.linspace(
-        0,
-        protocol.index[-1].total_seconds(),
-        len(protocol) * time_points_per_step,
+    # Same time grid as a successful run: every protocol step contributes
+    # `time_points_per_step` points after its start
+    t_ends = [t.total_seconds() for t in protocol.index]
+    time_points = np.concatenate(
+        [
+            [0.0],
+            *(
+                np.linspace(t_start, t_end, time_points_per_step + 1)[1:]
+                for t_start, t_end in zip([0.0, *t_ends[:-1]], t_ends, strict=True)
+            ),
+        ]
     )
     return res.default(lambda: Simulation.default(model=model, time_points=time_points))
 
@@ -283,7 +290,16 @@ def _protocol_time_course_worker(
     except ZeroDivisionError:
         res = Result(Exception())
 
-    return res.default(lambda: Simulation.default(model=model, time_points=time_points))
+    # Same time grid as a successful run, which also reports the switch points of
+    # the protocol
+    t_ends = np.array([t.total_seconds() for t in protocol.index])
+    full_time_points = np.union1d(np.array(time_points, dtype=float), t_ends)
+    full_time_points = np.union1d(
+        [0.0], full_time_points[(full_time_points > 0) & (full_time_points <= t_ends[-1])]
+    )
+    return res.default(
+        lambda: Simulation.default(model=model, time_points=full_time_points)
+    )
 
 
 @dataclass(kw_only=True, slots=True)
